@@ -1160,6 +1160,7 @@ func init() {
 			// a forked root (state = a mixed output) decorrelates the seeds.
 			root := c.R.Fork()
 			disModelCases(c, root.Fork(), names)
+			disDeadBranchOracle(c)
 			n := 1500 * c.Scale
 			for i := 0; i < n; i++ {
 				disCheck(c, disGenerate(root.Fork(), names))
